@@ -12,9 +12,11 @@ ROOT = os.environ.get("VERIF_WORK", "/root/xlate_scratch")
 SCR = os.path.join(ROOT, "shape_mut_repo")
 LEAN = os.path.join(ROOT, "shape_mut_lean")
 GEN = os.path.join(LEAN, "GrinVerif", "Gen")
-FILES = [gp.PIPE, gp.BLOCK, gp.TXS, gp.UTXO, gp.TXH, gp.TPOOL, gp.POOL]
+FILES = [gp.PIPE, gp.BLOCK, gp.TXS, gp.UTXO, gp.TXH, gp.TPOOL, gp.POOL, gp.CHAINRS]
 MODS = ["GrinVerif.Props.XlateShape" + a + s for a in ("Chain", "Core", "Pool") for s in ("", "Pins")] + \
-       ["GrinVerif.Props.XlateShapeModel", "GrinVerif.Props.XlateShapeModel2"]
+       ["GrinVerif.Props.XlateShapeModel", "GrinVerif.Props.XlateShapeModel2", "GrinVerif.Props.XlateShapeChainApi",
+        "GrinVerif.Props.XlateShapeChainApiPins", "GrinVerif.Props.XlateShapeTxhs", "GrinVerif.Props.XlateShapeTxhsPins",
+        "GrinVerif.Props.XlateShapeTxhsFacts"]
 P, B, T, U, X, TP, PL = gp.PIPE, gp.BLOCK, gp.TXS, gp.UTXO, gp.TXH, gp.TPOOL, gp.POOL
 MUTS = [
  ("S01 process_block: `?` dropped on validate_block", P, "\tvalidate_block(b, ctx)?;\n", "\tlet _ = validate_block(b, ctx);\n"),
@@ -41,6 +43,10 @@ MUTS = [
  ("S18 validate_header: another argument (prev instead of header) in the weight bound", P, "let weight = TransactionBody::weight_by_iok(0, num_outputs, num_kernels);", "let weight = TransactionBody::weight_by_iok(0, num_kernels, num_outputs);"),
  ("S19 validate_header: num_outputs computed from the kernel counter of prev (a `let` feeding the InvalidMMRSize / TooHeavy guards)", P, ".output_mmr_count()\n\t\t.saturating_sub(prev.output_mmr_count());", ".output_mmr_count()\n\t\t.saturating_sub(prev.kernel_mmr_count());"),
  ("S20 validate_header: target difficulty computed with the operands swapped (a `let` under the SKIP_POW guard)", P, "let target_difficulty = header.total_difficulty() - prev.total_difficulty();", "let target_difficulty = prev.total_difficulty() - header.total_difficulty();"),
+ ("S21 txhashset::extending: child batch commit moved in front of the rollback test", X, "\t\t\tif rollback {\n\t\t\t\ttrace!(\"Rollbacking txhashset extension. sizes {:?}\", sizes);", "\t\t\tchild_batch.commit()?;\n\t\t\tif rollback {\n\t\t\t\ttrace!(\"Rollbacking txhashset extension. sizes {:?}\", sizes);"),
+ ("S22 txhashset::extending: kernel tree not discarded on the Err path", X, "\t\t\tdebug!(\"Error returned, discarding txhashset extension: {}\", e);\n\t\t\ttrees.output_pmmr_h.backend.discard();\n\t\t\ttrees.rproof_pmmr_h.backend.discard();\n\t\t\ttrees.kernel_pmmr_h.backend.discard();", "\t\t\tdebug!(\"Error returned, discarding txhashset extension: {}\", e);\n\t\t\ttrees.output_pmmr_h.backend.discard();\n\t\t\ttrees.rproof_pmmr_h.backend.discard();"),
+ ("S23 header_extending: rollback flag ignored (`if rollback` -> `if false`)", X, "\t\t\tif rollback {\n\t\t\t\thandle.backend.discard();", "\t\t\tif false {\n\t\t\t\thandle.backend.discard();"),
+ ("S24 Chain::check_orphan: early Ok condition negated", gp.CHAINRS, "if is_next || self.block_exists(block.header.prev_hash)? {", "if !is_next || self.block_exists(block.header.prev_hash)? {"),
  # benign
  ("SB1 benign: comments and reformatting in validate_header", P, "\tif header.height != prev.height + 1 {\n\t\treturn Err(Error::InvalidBlockHeight);\n\t}", "\tif header.height != prev.height + 1\n\t{ // height\n\t\treturn Err( Error::InvalidBlockHeight );\n\n\t}"),
  ("SB2 benign: local `prev` renamed in validate_header", P, None, "validate_header"),
